@@ -682,6 +682,28 @@ def ev_convert():
     return outs
 
 
+def m_plain_unnamed():
+    """Nothing for any pass to do - but nodes without names / with one shared name, which a name-fixing step triggered
+    by left-over 'modified' state of a long-lived pass object would alter."""
+    nodes = [helper.make_node("Relu", ["x"], ["t"]), helper.make_node("Sigmoid", ["t"], ["u"]),
+             helper.make_node("Add", ["t", "u"], ["v"], name="dup"), helper.make_node("Mul", ["v", "u"], ["y"], name="dup")]
+    return _model(nodes, [_vi("x", [2, 3])], [_vi("y", [2, 3])], opset=18)
+
+
+REWRITEPASS = onnxscript.rewriter.RewritePass(onnxscript.rewriter._DEFAULT_REWRITE_RULES)
+
+
+def ev_pass_plain():
+    """the long-lived pass objects (version converter, folder, rewrite pass) on a model none of them needs to change"""
+    outs = {}
+    for tag, ps in (("convert", CONVPASS), ("fold", FOLD), ("rewrite", REWRITEPASS)):
+        m = ir.serde.deserialize_model(m_plain_unnamed())
+        res = ps(m)
+        outs[tag] = _ser_plain(ir.serde.serialize_model(res.model))
+        outs[tag + "_modified"] = repr(bool(res.modified)).encode()
+    return outs
+
+
 _X4 = np.array([1.0, -2.0, 3.0, 0.5], dtype=np.float32)
 _X2 = np.array([1.0, 2.0], dtype=np.float32)
 
@@ -781,7 +803,7 @@ EVENTS = {
     "opt_reshape2": ev_opt_reshape2, "opt_reshape_az": ev_opt_reshape_az, "opt_fold_o11": ev_opt_fold_o11, "opt_fold_o18": ev_opt_fold_o18, "opt_padconv": ev_opt_padconv, "opt_matreshape": ev_opt_matreshape,
     "opt_nearmiss": ev_opt_nearmiss, "opt_mixed": ev_opt_mixed,
     "rw_checkraises": ev_rw_checkraises, "rw_patternraises": ev_rw_patternraises, "rw_alt": ev_rw_alt,
-    "rw_rms": ev_rw_rms, "fold_reuse": ev_fold_reuse, "convert": ev_convert,
+    "rw_rms": ev_rw_rms, "fold_reuse": ev_fold_reuse, "convert": ev_convert, "pass_plain": ev_pass_plain,
     "eager_raise": ev_eager_raise, "use_persist": ev_use_persist, "proto_repeat": ev_proto_repeat,
     "glob_mut": ev_glob_mut, "use_g": ev_use_g,
 }
